@@ -17,6 +17,7 @@ import (
 	"strings"
 
 	"github.com/zmap/zcrypto/tls"
+	"github.com/zmap/zcrypto/x509"
 
 	"zv/internal/tlsrig"
 	"zv/internal/zv"
@@ -171,6 +172,41 @@ func execMsg(f []string) zv.Out {
 			return zv.Out{Go: "err", Tags: []string{"cert:err"}}
 		}
 		return zv.Out{Go: fmtCerts(l), Tags: []string{"cert:ok", fmt.Sprintf("cert:chain=%d", len(l.Chain))}}
+	case "cert13":
+		msg := zv.UnHex(f[2])
+		l, ocsp, scts, ok := tls.ZVC28Certificate13Log(msg)
+		if !ok {
+			return zv.Out{Go: "err", Tags: []string{"cert13:err"}}
+		}
+		out := zv.Out{Go: fmtCerts(l) + fmt.Sprintf(" ocsp=%d scts=%d", b2i(ocsp), b2i(scts)),
+			Tags: []string{"cert13:ok", fmt.Sprintf("cert13:chain=%d", len(l.Chain)), fmt.Sprintf("cert13:ocsp=%d,scts=%d", b2i(ocsp), b2i(scts))}}
+		// T3 on the single message: leaf ‖ chain are the cert_data fields of the entries, in order (independent parse)
+		if len(msg) >= 4 {
+			if certs, err := parseCertList13(msg[4:]); err != nil {
+				out.Viol = "accepted by certificateMsgTLS13.unmarshal, rejected by the independent parser"
+			} else {
+				logged := [][]byte{}
+				if len(certs) > 0 {
+					logged = append(logged, l.Certificate.Raw)
+				} else if len(l.Certificate.Raw) != 0 {
+					out.Viol = "leaf logged for an empty certificate list"
+				}
+				for _, e := range l.Chain {
+					logged = append(logged, e.Raw)
+				}
+				if len(logged) != len(certs) {
+					out.Viol = fmt.Sprintf("%d certificates in the message, %d in the logged leaf and chain", len(certs), len(logged))
+				} else {
+					for i := range certs {
+						if !bytes.Equal(certs[i], logged[i]) {
+							out.Viol = fmt.Sprintf("logged certificate #%d is not cert_data #%d of the message", i, i)
+							break
+						}
+					}
+				}
+			}
+		}
+		return out
 	case "fin":
 		l, ok := tls.ZVC28FinishedLog(zv.UnHex(f[2]))
 		if !ok {
@@ -380,6 +416,40 @@ func checkRun(r *run) *checker {
 		c.eqBool("client_hello.scts", l.Scts, has)
 		if d, has := ch.ext(0xff01); has && len(d) > 1 != l.SecureRenegotiation {
 			c.bad("client_hello.secure_renegotiation: log %v, renegotiated_connection on the wire has %d bytes", l.SecureRenegotiation, len(d)-1)
+		} else if !has && l.SecureRenegotiation {
+			c.bad("client_hello.secure_renegotiation logged, no renegotiation_info on the wire")
+		}
+		// extended_random (0x0028): logged bytes are the extension's vector
+		if d, has := ch.ext(0x28); has {
+			if len(d) < 2 || !bytes.Equal(l.ExtendedRandom, d[2:]) {
+				c.bad("client_hello.extended_random: log %s, wire extension data %s", short(l.ExtendedRandom), short(d))
+			}
+			c.tag("ch:extended-random")
+		} else if len(l.ExtendedRandom) != 0 {
+			c.bad("client_hello.extended_random logged, no extension 0x0028 on the wire")
+		}
+		if _, has := ch.ext(18); l.SctEnabled && !has {
+			c.bad("client_hello.sct_enabled logged, no signed_certificate_timestamp extension on the wire")
+		}
+		// whatever is logged as an unknown extension must be an extension that was sent
+		for i, u := range l.UnknownExtensions {
+			found := false
+			for _, e := range ch.exts {
+				if len(u) >= 4 && int(u[0])<<8|int(u[1]) == e.id && bytes.Equal(u[4:], e.data) {
+					found = true
+				}
+			}
+			if !found {
+				c.bad("client_hello.unknown_extensions[%d] = %s is not an extension of the ClientHello on the wire", i, short(u))
+			}
+		}
+		// no extension twice (a log field could then describe only one of them)
+		seen := map[int]bool{}
+		for _, e := range ch.exts {
+			if seen[e.id] {
+				c.bad("ClientHello on the wire carries extension %d twice", e.id)
+			}
+			seen[e.id] = true
 		}
 		sni := ""
 		if d, has := ch.ext(0); has && len(d) >= 5 {
@@ -401,8 +471,10 @@ func checkRun(r *run) *checker {
 				pts = append(pts, int(x))
 			}
 			if !eqIntList(l.SupportedPoints, pts) {
-				c.bad("client_hello.supported_point_formats differ")
+				c.bad("client_hello.supported_point_formats: log %v wire %v", l.SupportedPoints, pts)
 			}
+		} else if len(l.SupportedPoints) != 0 {
+			c.bad("client_hello.supported_point_formats logged, none on the wire")
 		}
 		if d, has := ch.ext(43); has && len(d) >= 1 {
 			if !eqIntList(l.SupportedVersions, u16list(d[1:])) {
@@ -447,12 +519,31 @@ func checkRun(r *run) *checker {
 					if wh != "?" && names[i].Hash != wh {
 						c.bad("client_hello.signature_and_hashes[%d]: wire scheme %04x names hash %s, log says %s", i, s, wh, names[i].Hash)
 					}
+					ws := wireSigNames(s>>8, s&0xff)
+					okSig := ws[0] == "?"
+					if ws[0] == "rsapss" && names[i].Sig == "rsa" {
+						// zcrypto's ClientHello table (common.go signatureAlgorithms) files the rsa_pss_rsae schemes under the
+						// RSA key family; coarse but not wrong — reported as a note, not failed
+						okSig = true
+						c.tag("note:ch-rsapss-logged-as-rsa")
+					}
+					for _, n := range ws {
+						if n == names[i].Sig {
+							okSig = true
+						}
+					}
+					if !okSig {
+						c.bad("client_hello.signature_and_hashes[%d]: wire scheme %04x names signature %v, log says %s", i, s, ws, names[i].Sig)
+					}
 				}
 			}
 		} else if len(l.SignatureAndHashes) != 0 {
 			c.bad("client_hello.signature_and_hashes logged, no signature_algorithms on the wire")
 		}
 	}
+
+	c.checkCHReparse(log.ClientHello, chm.raw)
+	c.checkCHOptions(r.s, r, ch, log.ClientHello)
 
 	// ---- ServerHello
 	shm := findMsg(in, 2)
@@ -533,8 +624,8 @@ func checkRun(r *run) *checker {
 		} else if log.ServerCertificates == nil {
 			c.bad("server_certificates not logged")
 		} else {
-			c.eqBytes("server_certificates.certificate.raw (TLS 1.3, vs chain sent)", log.ServerCertificates.Certificate.Raw, r.chain[0])
-			c.eqInt("server_certificates.chain length", len(log.ServerCertificates.Chain), len(r.chain)-1)
+			// the Certificate message is encrypted: compare with the chain the server was configured to send
+			c.checkCerts(log.ServerCertificates, r.chain, st.PeerCertificates, "chain the server sent (TLS 1.3)")
 		}
 		c.tag("hs:tls13")
 		// nothing else of a TLS 1.3 handshake is logged or visible
@@ -551,14 +642,9 @@ func checkRun(r *run) *checker {
 		} else if log.ServerCertificates == nil {
 			c.bad("server_certificates not logged")
 		} else {
-			l := log.ServerCertificates
-			c.eqBytes("server_certificates.certificate.raw", l.Certificate.Raw, certs[0])
-			c.eqInt("server_certificates.chain length", len(l.Chain), len(certs)-1)
-			for i := 0; i < len(l.Chain) && i+1 < len(certs); i++ {
-				c.eqBytes(fmt.Sprintf("server_certificates.chain[%d].raw", i), l.Chain[i].Raw, certs[i+1])
-			}
-			if l.Certificate.Parsed == nil || !bytes.Equal(l.Certificate.Parsed.Raw, certs[0]) {
-				c.bad("server_certificates.certificate.parsed is not the parse of the certificate on the wire")
+			c.checkCerts(log.ServerCertificates, certs, st.PeerCertificates, "Certificate message on the wire")
+			if len(certs) != len(r.chain) {
+				c.bad("Certificate message carries %d certificates, the server was configured with %d", len(certs), len(r.chain))
 			}
 		}
 	} else if log.ServerCertificates != nil {
@@ -711,6 +797,182 @@ func checkRun(r *run) *checker {
 	return c
 }
 
+// checkCerts: leaf and chain of the log (raw bytes and the parsed certificate attached to each entry) are, entry by
+// entry and in order, the certificates the server sent; so are the peer certificates of the connection state.
+func (c *checker) checkCerts(l *tls.Certificates, sent [][]byte, peer []*x509.Certificate, what string) {
+	c.tag(fmt.Sprintf("cert:sent=%d", len(sent)))
+	if len(sent) == 0 {
+		c.bad("no certificates sent")
+		return
+	}
+	c.eqBytes("server_certificates.certificate.raw vs "+what, l.Certificate.Raw, sent[0])
+	if l.Certificate.Parsed == nil {
+		c.bad("server_certificates.certificate.parsed missing")
+	} else if !bytes.Equal(l.Certificate.Parsed.Raw, sent[0]) {
+		c.bad("server_certificates.certificate.parsed is not the parse of certificate #0 of the %s", what)
+	}
+	c.eqInt("server_certificates.chain length", len(l.Chain), len(sent)-1)
+	for i := range l.Chain {
+		e := l.Chain[i]
+		if i+1 < len(sent) {
+			c.eqBytes(fmt.Sprintf("server_certificates.chain[%d].raw vs certificate #%d of the %s", i, i+1, what), e.Raw, sent[i+1])
+		}
+		if e.Parsed == nil {
+			c.bad("server_certificates.chain[%d].parsed missing", i)
+			continue
+		}
+		if !bytes.Equal(e.Parsed.Raw, e.Raw) {
+			c.bad("server_certificates.chain[%d]: raw and parsed are different certificates (parsed subject %q)", i, e.Parsed.Subject.String())
+		}
+		if i+1 < len(sent) && !bytes.Equal(e.Parsed.Raw, sent[i+1]) {
+			c.bad("server_certificates.chain[%d].parsed is not the parse of certificate #%d of the %s", i, i+1, what)
+		}
+	}
+	// every certificate sent appears exactly once in leaf ‖ chain (nothing dropped, nothing duplicated)
+	logged := [][]byte{l.Certificate.Raw}
+	for _, e := range l.Chain {
+		logged = append(logged, e.Raw)
+	}
+	for i, s := range sent {
+		n := 0
+		for _, x := range logged {
+			if bytes.Equal(x, s) {
+				n++
+			}
+		}
+		if n != 1 {
+			c.bad("certificate #%d of the %s appears %d times in the logged leaf and chain", i, what, n)
+		}
+	}
+	// ConnectionState().PeerCertificates
+	c.eqInt("ConnectionState().PeerCertificates length", len(peer), len(sent))
+	for i := 0; i < len(peer) && i < len(sent); i++ {
+		if peer[i] == nil || !bytes.Equal(peer[i].Raw, sent[i]) {
+			c.bad("ConnectionState().PeerCertificates[%d] is not certificate #%d of the %s", i, i, what)
+		}
+	}
+	if js, err := json.Marshal(l); err != nil {
+		c.bad("json.Marshal(server_certificates): %v", err)
+	} else {
+		// the JSON form carries the same raw bytes, in the same order
+		var m struct {
+			Certificate struct{ Raw []byte `json:"raw"` } `json:"certificate"`
+			Chain       []struct{ Raw []byte `json:"raw"` } `json:"chain"`
+		}
+		if err := json.Unmarshal(js, &m); err != nil {
+			c.bad("server_certificates JSON does not parse: %v", err)
+		} else {
+			c.eqBytes("server_certificates JSON certificate.raw", m.Certificate.Raw, sent[0])
+			c.eqInt("server_certificates JSON chain length", len(m.Chain), len(sent)-1)
+			for i := 0; i < len(m.Chain) && i+1 < len(sent); i++ {
+				c.eqBytes(fmt.Sprintf("server_certificates JSON chain[%d].raw", i), m.Chain[i].Raw, sent[i+1])
+			}
+		}
+	}
+}
+
+// checkCHReparse: the logged ClientHello is the log record of the ClientHello that was sent, i.e. feeding the bytes
+// on the wire to the real parser + MakeLog (the function the Lean model mirrors, see the T2 lines `c28 ch`) gives the
+// same record, field for field.
+func (c *checker) checkCHReparse(l *tls.ClientHello, raw []byte) {
+	w, ok := tls.ZVC28ClientHelloLog(append([]byte(nil), raw...))
+	if !ok {
+		c.bad("the ClientHello on the wire is rejected by clientHelloMsg.unmarshal")
+		return
+	}
+	if a, b := fmtCH(l), fmtCH(w); a != b {
+		c.bad("client_hello log differs from the log record of the ClientHello bytes on the wire: %s", diffFields(a, b))
+		return
+	}
+	ja, _ := json.Marshal(l)
+	jb, _ := json.Marshal(w)
+	if !bytes.Equal(ja, jb) {
+		c.bad("client_hello JSON differs from the JSON of the log record of the wire bytes: log %s wire %s", ja, jb)
+	}
+}
+
+func diffFields(a, b string) string {
+	fa, fb := strings.Fields(a), strings.Fields(b)
+	var d []string
+	for i := 0; i < len(fa) && i < len(fb); i++ {
+		if fa[i] != fb[i] {
+			x, y := fa[i], fb[i]
+			if len(x) > 60 {
+				x = x[:60] + "…"
+			}
+			if len(y) > 60 {
+				y = y[:60] + "…"
+			}
+			d = append(d, fmt.Sprintf("log %s / wire %s", x, y))
+		}
+	}
+	return strings.Join(d, "; ")
+}
+
+// checkCHOptions: what the scenario's configuration is documented to put into the ClientHello is on the wire (so the
+// scenario really exercises the option), and log and wire agree on it. Only effects the configuration promises
+// unconditionally are asserted here; everything else is covered by the log-vs-wire comparison.
+func (c *checker) checkCHOptions(s scen, r *run, ch *wHello, l *tls.ClientHello) {
+	for i := 0; i < optCount; i++ {
+		if s.opts&(1<<i) != 0 {
+			c.tag("opt:" + optNames[i])
+		}
+	}
+	_, wireTicket := ch.ext(35)
+	if wireTicket {
+		c.tag("ch:ticket-ext")
+	}
+	if s.has(optExternal) {
+		c.tag("opt:external-hello")
+		for i := 0; i < extCount; i++ {
+			if s.vari&(1<<i) != 0 {
+				c.tag("ext-hello:" + extNames[i])
+			}
+		}
+		for _, e := range []struct{ bit, id int }{{extEMS, 23}, {extExtRandom, 0x28}, {extHeartbeat, 15}, {extUnknown, 0x1234}, {extTicket, 35}} {
+			if _, has := ch.ext(e.id); has && s.vari&e.bit != 0 {
+				c.tag(fmt.Sprintf("ext-hello:sent-%d", e.id))
+			}
+		}
+		return
+	}
+	if s.has(optForceTicket) {
+		if !wireTicket {
+			c.bad("ForceSessionTicketExt set but no session_ticket extension on the wire")
+		}
+		if !l.TicketSupported {
+			c.bad("ForceSessionTicketExt set, session_ticket extension sent, log says ticket=false")
+		}
+	}
+	if s.has(optCurves) || s.has(optEmptyCurves) {
+		var want []int
+		if !s.has(optEmptyCurves) {
+			for _, x := range curveVariants[s.vari%len(curveVariants)] {
+				want = append(want, int(x))
+			}
+		}
+		d, _ := ch.ext(10)
+		var got []int
+		if len(d) >= 2 {
+			got = u16list(d[2:])
+		}
+		if fmt.Sprint(got) != fmt.Sprint(want) {
+			c.bad("CurvePreferences %v configured, supported_groups on the wire %v", want, got)
+		}
+		if !eqIntList(l.SupportedCurves, want) {
+			c.bad("client_hello.supported_curves: log %v, configured and sent %v", l.SupportedCurves, want)
+		}
+	}
+	// explicit client random: if it is honoured it is both on the wire and in the log (compared above); tag which
+	if s.has(optRandom) {
+		if bytes.Equal(ch.random, clientRandomFor(s)) {
+			c.tag("ch:client-random-honoured")
+		} else {
+			c.tag("ch:client-random-ignored")
+		}
+	}
+}
+
 func curveOf(id int) elliptic.Curve {
 	switch id {
 	case 23:
@@ -808,7 +1070,15 @@ func execHS(f []string) zv.Out {
 	r := runScen(s)
 	defer r.close()
 	c := checkRun(r)
-	o := zv.Out{Tags: c.tags}
+	seen := map[string]bool{}
+	var tags []string
+	for _, t := range c.tags {
+		if !seen[t] {
+			seen[t] = true
+			tags = append(tags, t)
+		}
+	}
+	o := zv.Out{Tags: tags}
 	if len(c.viol) > 0 {
 		o.Viol = strings.Join(c.viol, "; ")
 	}
